@@ -145,6 +145,8 @@ def assigned_names(stmts: List[ast.stmt]) -> Set[str]:
     out: Set[str] = set()
 
     def tgt(t: ast.AST) -> None:
+        if isinstance(t, ast.Attribute) and isinstance(t.value, ast.Name):
+            out.add("@%s.%s" % (t.value.id, t.attr))
         if isinstance(t, ast.Name):
             out.add(t.id)
         elif isinstance(t, (ast.Tuple, ast.List)):
@@ -218,22 +220,24 @@ class Walker:
         self.max_depth = depth
         self.typer = typer or Typer(repo)
         self.unresolved: List[str] = []
-        self._cache: Dict[Tuple[str, int], Summary] = {}
+        self._cache: Dict[Tuple[str, int, bool], Summary] = {}
 
     # ------------------------------------------------------------------ public
-    def summary(self, qualname: str, depth: Optional[int] = None) -> Summary:
+    def summary(self, qualname: str, depth: Optional[int] = None, heap: bool = False) -> Summary:
+        """heap=True: stores to `name.attr` are remembered, so a later read of `name.attr` denotes the stored value."""
         d = self.max_depth if depth is None else depth
-        ck = (qualname, d)
+        ck = (qualname, d, heap)
         if ck in self._cache:
             return self._cache[ck]
         fi = self.repo.func(qualname)
-        s = _Run(self, fi, d).run()
+        s = _Run(self, fi, d, heap).run()
         self._cache[ck] = s
         return s
 
 
 class _Run:
-    def __init__(self, w: Walker, fi: FuncInfo, depth: int):
+    def __init__(self, w: Walker, fi: FuncInfo, depth: int, heap: bool = False):
+        self.heap = heap
         self.w = w
         self.repo = w.repo
         self.fi = fi
@@ -500,8 +504,10 @@ class _Run:
             self.assign_target(tgt.value, ("opaque", "starred"), line)
             return
         if isinstance(tgt, (ast.Attribute, ast.Subscript)):
-            t = self.N(tgt)
+            t = self.N(_as_load(tgt))
             self.emit("store", t, line, value=value)
+            if self.heap and isinstance(tgt, ast.Attribute) and isinstance(tgt.value, ast.Name):
+                scope.env["@%s.%s" % (tgt.value.id, tgt.attr)] = value
             return
         self.unknown.append("%s:%d assignment target %s" % (self.cur.fi.module.path, line, type(tgt).__name__))
 
@@ -544,6 +550,8 @@ class _Run:
             self.cur.scope.env[st.target.id] = new
         else:
             self.emit("store", cur, st.lineno, value=new)
+            if self.heap and isinstance(st.target, ast.Attribute) and isinstance(st.target.value, ast.Name):
+                self.cur.scope.env["@%s.%s" % (st.target.value.id, st.target.attr)] = new
         return {"fall"}
 
     def s_Delete(self, st: ast.Delete) -> Set[str]:
